@@ -158,7 +158,8 @@ static void env_on_sink_input(int sink, struct uref *uref)
 static struct urequest RQ;
 static bool rq_registered, rq_provided;
 static unsigned rq_answers;
-static uint64_t rq_value;
+static uint64_t rq_vals[6];
+static int rq_nvals, rq_next;
 static struct urequest *lodged[4];
 static int nlodged;
 static int rq_provide(struct urequest *urequest, va_list args)
@@ -166,7 +167,11 @@ static int rq_provide(struct urequest *urequest, va_list args)
     VASSERT(urequest == &RQ, "C12: the answer is delivered to the original request");
     VASSERT(rq_registered, "C12: after a request has been unregistered its callback is never invoked again (across the queue)");
     uint64_t v = va_arg(args, uint64_t);
-    VASSERT(rq_provided && v == rq_value, "C12: the answer carries the provider's value");
+    /* the answers of the current registration arrive in the order they were given (some may be skipped, never invented) */
+    bool match = false;
+    while (rq_next < rq_nvals && !match)
+        match = rq_vals[rq_next++] == v;
+    VASSERT(rq_provided && match, "C12: the answer carries a value the provider gave during this registration, in order");
     rq_answers++;
     return UBASE_ERR_NONE;
 }
@@ -300,14 +305,18 @@ int main(void)
                     VASSERT(ubase_check(upipe_unregister_request(QSINK, &RQ)), "request withdrawn from the queue sink");
                     rq_registered = false;
                     rq_provided = false;
+                    rq_nvals = rq_next = 0;
                 }
                 break;
             case 14:        /* the provider answers what is lodged with it (symbolic value) */
                 if (nlodged > 0) {
-                    rq_value = nd_u64();
-                    if (rq_registered)
+                    uint64_t value = nd_u64();
+                    if (rq_registered) {
                         rq_provided = true;
-                    VASSERT(ubase_check(urequest_provide_sink_latency(lodged[0], rq_value)), "answer accepted");
+                        VASSERT(rq_nvals < 6, "harness capacity: answers");
+                        rq_vals[rq_nvals++] = value;
+                    }
+                    VASSERT(ubase_check(urequest_provide_sink_latency(lodged[0], value)), "answer accepted");
                 }
                 break;
             case 15:
